@@ -47,12 +47,9 @@ def ctx12():
 
 
 def cond_bits(proc, teal):
-    bits = ""
-    for oc, appid in ctx12():
-        res = proc.ask((S("run"), L.make_ctx([], oc, appid, []), teal))
-        v = res[1] if isinstance(res, list) and res and res[0] == S("ran") else None
-        bits += {"approve": "1", "reject": "0", "fail": "x"}.get(getattr(v, "name", None), "?")
-    return bits
+    obs = L.run_calls(proc, teal, [], [([], oc, appid) for oc, appid in ctx12()])
+    # Return(cond): approve = true, reject = false
+    return "".join({"approves": "1", "rejects": "0", "fails": "x"}.get(o[0], "?") for o in obs)
 
 
 def oracle_bits_mc(mcd):
@@ -127,8 +124,7 @@ def job_acond(payload):
 
 def bare_outcomes(proc, teal):
     out = ""
-    for oc, appid in ctx12():
-        o = L.observe(proc.ask((S("run"), L.make_ctx([], oc, appid, []), teal)))
+    for o in L.run_calls(proc, teal, [], [([], oc, appid) for oc, appid in ctx12()]):
         out += {"runs": "h%d;" % o[1] if o[0] == "runs" else "", "rejects": "r;", "fails": "f;"}.get(o[0], "?;")
     return out
 
@@ -248,8 +244,9 @@ def check_program(pt, proc, cfg, combos, extras=(0, 1, 2), stop_early=False):
             if sk_c != ("ok", mprog[1]):
                 issues.append(dict(base, level="model", part="clear-state program skeleton", real=repr(sk_c[1])[:600], model=repr(mprog[1])[:600]))
         # behaviour: approval
-        for (lab, args, oc, appid, desc), row in zip(calls, mt):
-            obs = L.run_call(proc, approval, msel, args, oc, appid)
+        obs_a = L.run_calls(proc, approval, msel, [(a, oc, appid) for _, a, oc, appid, _d in calls])
+        obs_c = L.run_calls(proc, clear, msel, [(a, oc, appid) for _, a, oc, appid, _d in clear_calls])
+        for (lab, args, oc, appid, desc), row, obs in zip(calls, mt, obs_a):
             stats["avm_runs"] += 1
             rec = dict(base, program="approval", label=lab, desc=desc, args=[a.hex() for a in args], oc=oc, appid=appid, observed=list(obs))
             if obs[0] == "anomaly":
@@ -266,8 +263,7 @@ def check_program(pt, proc, cfg, combos, extras=(0, 1, 2), stop_early=False):
             if obs != L.p_outcome(row[0]):
                 issues.append(dict(rec, level="model", part="approval program vs Dispatch.dispatch", model=list(L.p_outcome(row[0]))))
         # behaviour: clear state
-        for (lab, args, oc, appid, desc), row in zip(clear_calls, mc_):
-            obs = L.run_call(proc, clear, msel, args, oc, appid)
+        for (lab, args, oc, appid, desc), row, obs in zip(clear_calls, mc_, obs_c):
             stats["avm_runs"] += 1
             rec = dict(base, program="clear", label=lab, desc=desc, args=[a.hex() for a in args], oc=oc, appid=appid, observed=list(obs))
             if obs[0] == "anomaly":
@@ -514,7 +510,31 @@ def directed_search(pt, proc, model_issues, rng, budget=60):
                          "methods": [{"name": "m0", "hid": 0, "shape": "v0", "mc": {oc: "all" for oc in L.OC5}, "via": "add"}]})
         if "cfg" in it:
             cfgs.append(copy.deepcopy(it["cfg"]))
+        if "default" in it.get("part", ""):
+            for via in ("default_decorator", "default_add"):
+                cfgs.append({"bare": {}, "clear": None, "methods": [{"name": "m0", "hid": 0, "shape": "v0", "mc": {"no_op": "call"}, "via": via}]})
     seen, found, tried = set(), [], 0
+    # registrations the model refuses but the code accepts (duplicate signature / colliding selectors): call every
+    # method of such a router on what its own MethodConfig allows
+    for it in model_issues:
+        if it.get("part", "").startswith("add_method_handler refusal") and it.get("real") == "ok":
+            for variant in (0, 1):
+                ms = [{"name": name, "hid": k, "shape": "v0", "via": "add",
+                       "mc": (mc if variant == 0 else ({"no_op": "call"} if k == 0 else {"opt_in": "call", "delete_application": "create"}))}
+                      for k, (name, mc) in enumerate(it["methods"])]
+                cfg = {"bare": {}, "clear": None, "methods": ms}
+                tried += 1
+                for m in ms:
+                    for oc_name, cc in m["mc"].items():
+                        for appid in (0, 77):
+                            args = [L.selector(L.method_sig(m))]
+                            bad, info = violates(pt, proc, cfg, 8, None, "approval", args, L.OC_CODE[oc_name], appid)
+                            if bad:
+                                found.append({"cfg": cfg, "version": 8, "opt": None, "program": "approval", "args": [a.hex() for a in args],
+                                              "desc": {"first": "raw:" + args[0].hex(), "extras": 0}, "oc": L.OC_CODE[oc_name], "appid": appid,
+                                              "level": "oracle"})
+                if found:
+                    return found, tried
     for cfg in cfgs:
         key = json.dumps(cfg, sort_keys=True)
         if key in seen:
@@ -584,16 +604,13 @@ def main(argv):
     tables = []
     for k, combo in enumerate(itertools.product(L.CCS, repeat=5)):
         tables.append((k, {oc: [L.BARE_KINDS[(k + j) % 4], cc] for j, (oc, cc) in enumerate(zip(L.OC5, combo)) if cc != "never"}))
-    if not thorough:
-        keep = [t for t in tables if len(t[1]) <= 2] + random.Random(ck.seed + 5).sample(tables, 260)
-        tables = list({t[0]: t for t in keep}.values())
     bare_jobs = [{"tables": tables[i::32]} for i in range(32)]
 
     corpus = load_corpus()
     cfgs = [(c, "corpus") for c in corpus]
     smalls = L.small_cfgs()
     cfgs += [(c, "small") for c in smalls]
-    n_random = 500 if thorough else 150
+    n_random = 600 if thorough else 250
     for i in range(n_random):
         cfgs.append((L.gen_cfg(rng), "random"))
     # hand-picked: many methods, all shapes, all-ALL next to bare ALL on every OnCompletion
@@ -746,7 +763,7 @@ def main(argv):
     return ck.finish(
         level="proof",
         rule="condition level: all 4^6 MethodConfig tuples (constructor acceptance, is_never, approval_cond form + text + truth table on the AVM for OnCompletion 0..5 x ApplicationID 0/77) "
-             "and %d BareCallActions tables (skeleton + execution); registration: decorator keyword combinations, never-executed, duplicate signature, colliding selectors, malformed bare actions; "
+             "and all %d valid BareCallActions tables (skeleton + execution); registration: decorator keyword combinations, never-executed, duplicate signature, colliding selectors, malformed bare actions; "
              "program level: %d router configurations (corpus, 256 exhaustive-small, random 0..4 methods x 0..5 bare actions x clear_state, hand-picked) compiled with Router.compile_program at versions 6..10 "
              "with/without OptimizeOptions, AST skeleton vs model program, approval+clear TEAL executed on the extracted AVM for first-argument in registered selectors + unknown + 3-byte prefix + 5-byte extension + none, "
              "0..2 extra arguments, OnCompletion 0..5, ApplicationID 0/77 - compared with the model's dispatch (exact) and the independent oracle; "
